@@ -271,9 +271,14 @@ class SendEventResponse(StreamingResponse[ServerSentEvent]):
                     yield b": ping\n\n"
         finally:
             should_stop = True
-            while not q.empty():
-                q.get_nowait()  # pragma: no cover
             if not push_future.cancel():
+                # The relay thread may be blocked in (or be about to call) `q.put`:
+                # keep the queue drained until it has finished.
+                while not push_future.done():
+                    try:
+                        q.get(timeout=0.01)
+                    except queue.Empty:
+                        pass
                 exc = push_future.exception()
                 if exc is not None:
                     raise exc
